@@ -48,13 +48,13 @@ func (o op) String() string {
 // ---- the model -----------------------------------------------------------------
 
 type model struct {
-	nm      [][2]int          // domains: N, M
-	procs   []int             // processor -> domain
-	ins     int               // external inputs
-	outs    int               // external outputs
-	iin     []string          // internal inputs in order (o<k>, p<n>i<j>)
-	iout    []string          // internal outputs in order (i<k>, p<n>o<j>)
-	bonds   map[string]string // internal input name -> internal output name
+	nm    [][2]int          // domains: N, M
+	procs []int             // processor -> domain
+	ins   int               // external inputs
+	outs  int               // external outputs
+	iin   []string          // internal inputs in order (o<k>, p<n>i<j>)
+	iout  []string          // internal outputs in order (i<k>, p<n>o<j>)
+	bonds map[string]string // internal input name -> internal output name
 }
 
 func (m *model) clone() *model {
@@ -392,7 +392,7 @@ func candidates(m *model, maxEnd int, withBench bool) []op {
 	}
 	if len(m.iin) > 0 && len(m.iout) > 0 {
 		c = append(c, op{K: "addbond", A: m.iout[0], B: m.iin[len(m.iin)-1]}) // reversed order of endpoints
-		c = append(c, op{K: "addbond", A: m.iin[0], B: "p9o9"})              // unknown endpoint: no change
+		c = append(c, op{K: "addbond", A: m.iin[0], B: "p9o9"})               // unknown endpoint: no change
 	}
 	if withBench && len(m.iout) >= 1 && len(m.procs) < maxEnd {
 		c = append(c, op{K: "bench", A: m.iout[0], B: m.iout[len(m.iout)-1]})
